@@ -321,9 +321,9 @@ def run(ctx):
         "directive arguments (Model/DirArgs.lean): values by provenance (nil / definition default / value of the use); the unmarshal call, the dumped literal and the directive function's parameter types are left to the Go compiler in the sweep",
         "derived package names (Model/PkgName.lean): the file system is an explicit input of the model (absent / entries with the package clause of each Go file); filepath.Abs / os.ReadDir / go/parser and Go's regexp class \\W are modelled, tied by -mode pkgnames on really created directories and by the package clauses of the generated layout projects",
     ]
-    ok_extract = ctx.extract("Keywords", "TypeRefRules", "FuncSyntaxArms", "PkgNameRules", "EmbedRule", "ExecLayoutTwins", "BuildGuards", "DirArgRule")
+    ok_extract = ctx.extract("Keywords", "TypeRefRules", "FuncSyntaxArms", "PkgNameRules", "EmbedRule", "ExecLayoutTwins", "BuildGuards", "DirArgRule", "GenerateSteps")
     proved = ok_extract and ctx.prove(props=["GqlgenVerif.Props.C17", "GqlgenVerif.Props.C17Pkg", "GqlgenVerif.Props.C17Embed", "GqlgenVerif.Props.C17Root",
-                                            "GqlgenVerif.Props.C17Files", "GqlgenVerif.Props.C17DirArgs"])
+                                            "GqlgenVerif.Props.C17Files", "GqlgenVerif.Props.C17DirArgs", "GqlgenVerif.Props.C17Regen"])
     if ok_extract and not proved:
         ctx.cov["proof_failure"] = ctx.proof_failure
     timings["extract_and_prove"] = round(time.time() - t0, 1)
@@ -625,6 +625,26 @@ def run(ctx):
                 # the input is concrete when the real implementation derives the same unusable name
                 ctx.violation(rep, no_failing_input=(m != r[5]))
                 found = True
+        if have_model and any("C17Regen" in str(x) or "previous_output_removed" in str(x) or "directory_state" in str(x) or "schema_of_this_run" in str(x)
+                              for x in (ctx.proof_failure or [])):
+            # the regenerated statement order of api.Generate on the tree model: autobind x stale models file
+            grid = [(ab, st) for ab in ("1", "0") for st in ("none", "Todo,User", "Todo,User,Gone")]
+            outs = ctx.driver("c17", ["regen %s Todo,User,RegenAdded - %s" % g for g in grid])
+            bad = [(g, o) for g, o in zip(grid, outs) if not o.endswith("spec=ok")]
+            rf = (sweep.get("regeneration") or {}).get("failed") or []
+            for (ab, st), o in bad[:2]:
+                rep = {"kind": "proof", "failing": ctx.proof_failure, "model_on_regenerated_order": o,
+                       "shape": {"stage": "second-generation-in-the-same-directory", "class": "regenerated-order-of-api.Generate-reads-stale-output",
+                                 "model_package_autobound": ab == "1", "stale_models_file": st != "none"}}
+                txt = ("schema types Todo, User, RegenAdded, model package %s, directory holds %s: api.Generate's statements in the order regenerated from api/generate.go "
+                       "(Gen/GenerateSteps.lean) give `%s` on the tree model (theorems of Props/C17Regen.lean)" % (
+                           "autobound" if ab == "1" else "not autobound", "no models file" if st == "none" else "a models file declaring " + st, o))
+                if rf:
+                    rep["input"] = rf[0]["input"]
+                    txt += "; failing project %s (autobind=%s, %s): %s" % (rf[0]["project"], rf[0]["autobind"], rf[0]["edit"], rf[0]["error"][:300])
+                rep["replay"] = txt
+                ctx.violation(rep, no_failing_input=not rf)
+                found = True
         if not found and not any(not nf for _, nf in ctx.violations):
             ctx.violation({"kind": "proof", "failing": ctx.proof_failure}, no_failing_input=True)
 
@@ -772,7 +792,8 @@ def run_sweep(ctx, have_model, branch, nontriv):
                                      "-inputres", "-inputcorpus", os.path.join(vf.VERIF, "corpus", "C17", "inputres.txt"),
                                      "-schemalocs", "-loccorpus", os.path.join(vf.VERIF, "corpus", "C17", "schemalocs.txt"),
                                      "-filekinds", "-filecorpus", os.path.join(vf.VERIF, "corpus", "C17", "filekinds.txt"),
-                                     "-dirargs", "-dirargcorpus", os.path.join(vf.VERIF, "corpus", "C17", "dirargs.txt")])
+                                     "-dirargs", "-dirargcorpus", os.path.join(vf.VERIF, "corpus", "C17", "dirargs.txt"),
+                                     "-regen", "-regencorpus", os.path.join(vf.VERIF, "corpus", "C17", "regen.txt")])
     if rc != 0:
         raise RuntimeError("harness schemas failed: " + se[-2000:])
     projects = [l.split("\t")[1] for l in so.split("\n") if l.startswith("project\t")]
@@ -855,7 +876,7 @@ def run_sweep(ctx, have_model, branch, nontriv):
 
     decl_out = {}
     with ThreadPoolExecutor(max_workers=8) as ex:
-        for p, (rc, so, se) in ex.map(decls, [p for p in ok if p not in build_fail and not p.endswith("ab") and not p.startswith(("c17b", "c17l", "c17i", "c17s", "c17f", "c17a"))]):
+        for p, (rc, so, se) in ex.map(decls, [p for p in ok if p not in build_fail and not p.endswith("ab") and not p.startswith(("c17b", "c17l", "c17i", "c17s", "c17f", "c17a", "c17g"))]):
             if rc != 0:
                 raise RuntimeError("harness decls failed for %s: %s" % (p, (so + se)[-1500:]))
             d = dict(l.split("\t", 1) for l in so.split("\n") if "\t" in l)
@@ -905,6 +926,10 @@ def run_sweep(ctx, have_model, branch, nontriv):
     file_builds = run_file_builds(ctx, have_model, root, [p for p in projects if p.startswith("c17f")], results, build_fail, branch, nontriv)
     dir_args = dirarg_stats(root, [p for p in projects if p.startswith("c17a")], results, build_fail, branch)
 
+    t0 = time.time()
+    regen = run_regeneration(ctx, have_model, root, projects, results, build_fail, gen, branch, nontriv)
+    tm["sweep_regenerate"] = round(time.time() - t0, 1)
+
     classes = Counter()
     samples = []
     failed_inputs = []
@@ -916,7 +941,7 @@ def run_sweep(ctx, have_model, branch, nontriv):
         branch["sweep:" + ("directed" if p.startswith("c17d") else "bindings" if p.startswith("c17b") else "root-typed-fields" if p.startswith("c17t") else "layout" if p.startswith("c17l")
                            else "input-field-resolvers" if p.startswith("c17i") else "schema-locations" if p.startswith("c17s")
                            else "file-contents" if p.startswith("c17f") else "directive-arguments" if p.startswith("c17a")
-                           else "autobind-no-models" if p.endswith("ab") else "random")] += 1
+                           else "regeneration" if p.startswith("c17g") else "autobind-no-models" if p.endswith("ab") else "random")] += 1
         nontriv.add("p" + p)
         yml_p = read(os.path.join(root, p, "gqlgen.yml"))
         fsyn = bool(re.search(r"^use_function_syntax_for_execution_context: true", yml_p, re.M))
@@ -1001,10 +1026,210 @@ def run_sweep(ctx, have_model, branch, nontriv):
             "generated_and_typechecked": classes["ok"], "outcome_classes": dict(classes),
             "declared_identifier_comparisons": emit_cmp, "declared_identifiers_compared": emit_idents,
             "failure_samples": samples, "bindings": binding, "layouts": layouts, "failed_inputs": failed_inputs,
-            "timings": tm, "schema_locations": embeds, "file_contents": file_builds, "directive_arguments": dir_args, "input_field_resolvers": input_resolver_stats(root, projects, results, build_fail),
+            "timings": tm, "regeneration": regen, "schema_locations": embeds, "file_contents": file_builds, "directive_arguments": dir_args, "input_field_resolvers": input_resolver_stats(root, projects, results, build_fail),
             "root_typed_fields": dict(rootref, distinct_shapes_method_syntax=len([1 for (sh, f) in rootref_shapes if not f]),
                                       distinct_shapes_function_syntax=len([1 for (sh, f) in rootref_shapes if f])),
             "note": "sampled support for the first sentence of C17, not proof"}
+
+
+# ---------------------------------------------------------------- the state of the project directory (regeneration)
+GENERIC_EDIT = "\ntype RegenAdded { id: ID!  note: String  again: [RegenAdded!] }\n"
+
+
+def go_types(src):
+    """type names a Go file declares at top level"""
+    return re.findall(r"^type (\w+) ", src, re.M)
+
+
+def read_regen(d):
+    """regen.tsv of a c17g project -> {autobind, edit, kind, note, step2: [files]}"""
+    r = {}
+    for l in read(os.path.join(d, "regen.tsv")).split("\n"):
+        f = l.split("\t")
+        if f[0] == "regen" and len(f) >= 4:
+            r.update({"autobind": f[1], "edit": f[2], "kind": f[3]})
+        elif f[0] == "note" and len(f) >= 2:
+            r["note"] = f[1]
+        elif f[0] == "step2" and len(f) >= 2:
+            r["step2"] = f[1].split()
+    return r
+
+
+def tree_files(d, skip=("step2",)):
+    """relative path -> size of every file below d (the directory state a generation starts from)"""
+    out = {}
+    for dp, dn, fn in os.walk(d):
+        dn[:] = [x for x in dn if not (dp == d and x in skip)]
+        for f in fn:
+            if f not in ("gen.err", "gen2.err"):
+                out[os.path.relpath(os.path.join(dp, f), d)] = os.path.getsize(os.path.join(dp, f))
+    return out
+
+
+def run_regeneration(ctx, have_model, root, projects, results, build_fail, gen, branch, nontriv):
+    """C17 also holds when generation is run AGAIN: every c17g project (autobind x what changed since the generation whose
+    output is in the directory) and a sample of every other family (a type added to the schema) is generated a second time
+    in the same directory, in a new process, and type-checked again."""
+    first_ok = [p for p in projects if results[p][0] == 0 and p not in build_fail]
+    dim = [p for p in first_ok if p.startswith("c17g")]
+    step = 8 if ctx.tier == "quick" else 2
+    others = []
+    per_family = Counter()
+    for p in first_ok:
+        if p.startswith("c17g") or p.endswith("ab") or not re.search(r"^model:", read(os.path.join(root, p, "gqlgen.yml")), re.M):
+            continue
+        fam = p[:4]
+        per_family[fam] += 1
+        if (per_family[fam] + ctx.seed) % step == 0:
+            others.append(p)
+    plan = {}
+    for p in dim + others:
+        d = os.path.join(root, p)
+        before = {f: read(os.path.join(d, f)) for f in sorted(os.listdir(d)) if f.endswith(".graphql") or f == "gqlgen.yml"}
+        if p.startswith("c17g"):
+            meta = read_regen(d)
+            step2 = {}
+            for f in meta.get("step2", []):
+                step2[f] = read(os.path.join(d, "step2", f))
+                os.makedirs(os.path.dirname(os.path.join(d, f)), exist_ok=True)
+                open(os.path.join(d, f), "w").write(step2[f])
+            for f in tree_files(d):
+                if f.endswith(".go") and f not in before and os.path.basename(f) in ("doc.go", "hand.go"):
+                    before[f] = read(os.path.join(d, f))
+        else:
+            cands = sorted(f for f in os.listdir(d) if f.endswith(".graphql"))
+            if not cands:
+                continue
+            f = next((c for c in cands if re.search(r"^type Query\b", read(os.path.join(d, c)), re.M)), cands[0])
+            meta = {"autobind": "as-the-family", "edit": "type", "kind": "sampled:" + p[:4], "note": "type RegenAdded appended to " + f}
+            step2 = {f: before[f] + GENERIC_EDIT}
+            open(os.path.join(d, f), "w").write(step2[f])
+        ym = re.search(r"^model:\n  filename: (\S+)", read(os.path.join(d, "gqlgen.yml")), re.M)
+        meta["stale_models"] = go_types(read(os.path.join(d, ym.group(1)))) if ym and os.path.exists(os.path.join(d, ym.group(1))) else None
+        plan[p] = (meta, before, step2, tree_files(d))
+    res2 = {}
+
+    def gen2(p):
+        q, rc, se = gen(p)
+        open(os.path.join(root, p, "gen2.err"), "w").write(se)
+        return q, rc, se
+
+    with ThreadPoolExecutor(max_workers=8) as ex:
+        for p, rc, se in ex.map(gen2, list(plan)):
+            res2[p] = (rc, se)
+    ok2 = [p for p in plan if res2[p][0] == 0]
+    bf2 = {}
+    if ok2:
+        rc, so, se = vf.sh(["go", "build"] + ["./genout/c17/%s/..." % p for p in ok2], cwd=vf.GO, env=vf.go_env(), timeout=1800)
+        if rc != 0:
+            cur = None
+            for l in (so + se).split("\n"):
+                m = re.match(r"# verifharness/genout/c17/(\w+)", l)
+                if m:
+                    cur = m.group(1)
+                    continue
+                m2 = re.match(r"genout/c17/(\w+)/", l)
+                if m2:
+                    cur = m2.group(1)
+                if cur and l.strip():
+                    bf2.setdefault(cur, []).append(l)
+            if not bf2:
+                raise RuntimeError("go build of regenerated packages failed without attributable output:\n" + (so + se)[-3000:])
+    pairs = Counter()
+    outcome = Counter()
+    follows = 0
+    failed = []
+    # tie of the tree model (Model/Regenerate.lean over the REGENERATED statement order of api.Generate): fixed-schema
+    # projects (Go-clean type names), prediction of success and of the types the new models file declares
+    tied = 0
+    if have_model:
+        rows = []
+        for p in plan:
+            meta = plan[p][0]
+            if meta.get("kind") not in ("directed", "cover"):
+                continue
+            d = os.path.join(root, p)
+            types = re.findall(r"^(?:type|input|enum|interface|union) (\w+)", read(os.path.join(d, "schema.graphql")), re.M)
+            hand = ["RegenHand"] if meta["autobind"] in ("hand", "other") else []
+            st = meta["stale_models"]
+            rows.append((p, "regen %s %s %s %s" % ("1" if meta["autobind"] in ("model", "hand") else "0", ",".join(types), ",".join(hand) or "-",
+                                                   "none" if st is None else (",".join(st) or "-"))))
+        for (p, line), mo in zip(rows, ctx.driver("c17", [l for _, l in rows])):
+            tied += 1
+            meta = plan[p][0]
+            d = os.path.join(root, p)
+            ym = re.search(r"^model:\n  filename: (\S+)", read(os.path.join(d, "gqlgen.yml")), re.M)
+            real_ok = res2[p][0] == 0
+            real_models = go_types(read(os.path.join(d, ym.group(1)))) if real_ok and ym else []
+            mm = re.match(r"(ok|fail) models=(\S+) spec=(\S+)", mo)
+            if not mm:
+                raise RuntimeError("driver regen: %r -> %r" % (line, mo))
+            m_models = [] if mm.group(2) in ("none", "-") else mm.group(2).split(",")
+            meta["model_verdict"] = mo
+            if (mm.group(1) == "ok") != real_ok or (real_ok and sorted(m_models) != sorted(real_models)):
+                ctx.violation({"kind": "correspondence", "what": "second generation: tree model over the regenerated order of api.Generate vs the real run", "project": p,
+                               "driver_input": line, "model": mo, "implementation": {"generated": real_ok, "models_file_declares": real_models},
+                               "replay": "project %s: Model/Regenerate.lean over Gen/GenerateSteps.lean (driver_c17 `%s`) predicts %s, the real second generation %s" % (
+                                   p, line, mo, ("declares " + ",".join(real_models)) if real_ok else "fails")}, no_failing_input=True)
+    for p in sorted(plan, key=lambda q: (not q.startswith("c17g_"), not q.startswith("c17g"), q)):
+        meta, before, step2, state = plan[p]
+        pairs["autobind=%s edit=%s" % (meta["autobind"], meta["edit"])] += 1
+        branch["regen:autobind=%s" % meta["autobind"]] += 1
+        branch["regen:edit=%s" % meta["edit"]] += 1
+        nontriv.add("g" + p)
+        rc, se = res2[p]
+        d = os.path.join(root, p)
+        problem = None
+        if rc == 0 and p in bf2:
+            rc, se = 6, "\n".join(bf2[p])
+        if rc != 0:
+            shape, head = classify(d, rc, se)
+            problem = head
+            shape.pop("message", None)
+            mt = re.search(r"unable to find type: \S+\.(\w+)", head)
+            if mt:
+                shape.update({"class": "bound-go-type-not-found", "type_was_declared_by_the_stale_models_file": mt.group(1) in (meta.get("stale_models") or [])})
+        else:
+            # generated and compiles: the model must FOLLOW the schema of the second step (not be frozen at the first)
+            yml = read(os.path.join(d, "gqlgen.yml"))
+            m = re.search(r"^model:\n  filename: (\S+)", yml, re.M)
+            mg = read(os.path.join(d, m.group(1))) if m else ""
+            want, unwanted = [], []
+            if meta["edit"] == "field":
+                want = ["RegenAdded "]
+            elif meta["edit"] == "type":
+                want = ["type RegenAdded struct"]
+            elif meta["edit"] == "enum":
+                want = ["RegenKindThird"]
+            elif meta["edit"] == "drop":
+                unwanted = ["type RegenGone struct"]
+            if m and meta["autobind"] in ("hand", "other") and "type RegenHand struct" in mg:
+                problem = "the hand-written model RegenHand was generated again into %s" % m.group(1)
+                shape = {"class": "hand-written-model-regenerated"}
+            miss = [w for w in want if w not in mg] + ["(still) " + w for w in unwanted if w in mg]
+            if m and miss and not problem:
+                problem = "%s does not follow the schema of the second generation: %s" % (m.group(1), ", ".join(miss))
+                shape = {"class": "model-does-not-follow-the-schema"}
+            if m and not problem:
+                follows += 1
+        if not problem:
+            outcome["ok"] += 1
+            continue
+        shape = dict(shape, stage="second-generation-in-the-same-directory", first_generation="ok", autobind=meta["autobind"],
+                     schema_edit=meta["edit"], directory_state="output of an earlier generation present" + (" (another configuration)" if meta["edit"] == "config" else ""))
+        shape["class"] = "regeneration:" + shape.get("class", "?")
+        outcome[shape["class"]] += 1
+        failed.append({"project": p, "error": problem, "autobind": meta["autobind"], "edit": meta["edit"], "model": meta.get("model_verdict"),
+                       "input": {"step 1": before, "step 2": step2, "files in the directory when step 2 starts": sorted(state)}})
+        ctx.violation({"kind": "generation", "project": p, "rc": rc, "first_error": problem[:600], "errors": first_errors(se)[:12] if rc else [],
+                       "shape": shape, "what_changed": meta.get("note"),
+                       "input": {"step 1 (generated and compiled)": before, "step 2 (files replaced, then generated again in a new process)": step2,
+                                 "files in the directory when step 2 starts": sorted(state)},
+                       "replay": "write `step 1` into /verif/go/genout/c17/%s, run `.cache/h_c17 -mode gen -dir <dir>`, replace the `step 2` files, run it again "
+                                 "(autobind: %s; %s): %s" % (p, meta["autobind"], meta.get("note"), problem[:300])})
+    return {"projects_generated_twice": len(plan), "of_the_dimension": len(dim), "sampled_from_other_families": len(others),
+            "sampled_by_family": dict(Counter(p[:4] for p in others)), "autobind_x_edit": dict(pairs), "outcomes": dict(outcome),
+            "models_checked_to_follow_the_second_schema": follows, "compared_with_tree_model": tied, "failed": failed[:6]}
 
 
 # ---------------------------------------------------------------- schema locations / input resolvers (helpers)
